@@ -108,10 +108,12 @@ func (a *updateAction) execute(th *Thread, ut *db19.UpdateTran) int {
 	tran := MakeSuTran(ut)
 	ctx := ast.RowContext{Th: th, Tran: tran, Hdr: hdr}
 	n := 0
-	prev := uint64(0)
+	// updated is the offsets of the new versions of the records.
+	// It is used to avoid updating a record again
+	// when the update moves it ahead in the index we are reading by.
+	updated := make(map[uint64]struct{})
 	for row := q.Get(th, Next); row != nil; row = q.Get(th, Next) {
-		// avoid getting stuck on the same record
-		if row[0].Off == prev {
+		if _, ok := updated[row[0].Off]; ok {
 			continue
 		}
 		ctx.Row = row
@@ -120,7 +122,8 @@ func (a *updateAction) execute(th *Thread, ut *db19.UpdateTran) int {
 			r.Put(th, SuStr(col), a.exprs[i].Eval(&ctx))
 		}
 		newrec := r.ToRecord(th, hdr)
-		prev = ut.Update(th, table, row[0].Off, newrec)
+		off := ut.Update(th, table, row[0].Off, newrec)
+		updated[off] = struct{}{}
 		n++
 	}
 	return n
